@@ -1961,15 +1961,27 @@ class PGPKey(Armorable, ParentRef, PGPObject):
             yield self
             return
 
+        # a component that an enclosing unlock scope (of this key, or of the subkey itself) has already opened stays open
+        # until that scope ends: this scope only checks the passphrase against it, on a copy, and wipes what it opened
+        opened = []
         try:
             for sk in protected:
+                if sk.is_unlocked:
+                    probe = copy.copy(sk._key)
+                    try:
+                        probe.unprotect(passphrase)
+                    finally:
+                        probe.keymaterial.clear()
+                    continue
+
+                opened.append(sk)
                 sk._key.unprotect(passphrase)
             del passphrase
             yield self
 
         finally:
             # clean up here by deleting the previously decrypted secret key material
-            for sk in protected:
+            for sk in opened:
                 sk._key.keymaterial.clear()
 
     def add_uid(self, uid, selfsign=True, **prefs):
